@@ -32,4 +32,19 @@ META = {
          'check and the loaders piecewise). Modelled, not verified: networkx DiGraph as insertion-ordered adjacency lists, '
          'nx.ancestors as reachability (soundness proved), recording operations stand for arbitrary callables. One known finding '
          '(unobserved stochastic observable twin) is listed in KNOWN_FINDINGS.txt.'),
+ 'C02': dict(
+    text='Theorems (Properties/C02.v, closed under the global context): the fixed execution order (name-sorted DFS, modelled as coded) '
+         'is invariant under every permutation of node and edge insertion order; sorted(names) is canonical; with a consistent executor '
+         'cache an execution returns what a fresh context returns, and for every history of pairwise coherent loaded nets sharing one '
+         'cache each execution equals the fresh-context execution (history independence); the call log is the scheduled order '
+         'restricted to operation nodes and respects dependencies (a parent had a value or ran earlier) - so all stochastic operations '
+         'of a batch are handed the single batch generator in one fixed, dependency-respecting order; the sub-seed of batch i depends '
+         'only on (seed, i) for every cache history (C15). Correspondence on every run: the pipeline model reproduces outputs and call '
+         'order of ElfiModel.generate on random graphs built in two insertion orders; python-side bit-identity (tobytes) of numeric twins '
+         'across repeats, global numpy state changes, unrelated computations in between, insertion orders, BatchHandler histories on one '
+         'context vs fresh contexts, native vs multiprocessing client, seeded Rejection; draws checked against RandomState(sub_seed spec).',
+    note=COMMON_NOTE + 'Partial: OS scheduling and pickling of nets to worker processes are runtime behaviour (transport modelled as '
+         'identity, sampled with a 2-worker pool); the hypothesis "coherent" of the history theorem (equal needed tuples imply equal '
+         'present outputs) is what the loaders provide and is validated by the correspondence runs, not proved from the loader model; '
+         'numpy RandomState(seed) assumed a pure function of the seed.'),
 }
